@@ -411,12 +411,16 @@ SUBS = [
 
 @st.composite
 def hyper_histories(draw):
-    names = ["param", "rho", "thickness", "translate", "rotate", "set_coord", "bc", "solve", "solve", "matrices", "replace_mesh"]
+    names = ["param", "rho", "thickness", "translate", "rotate", "set_coord", "bc", "solve", "solve", "matrices", "replace_mesh",
+             "save", "set_iter"]
     ops = []
     # two cases out of three start with: dynamic step, one invalidating change, dynamic step (the uniform draw rarely lines them up)
     plan = [None] * draw(st.integers(3, 9))
-    if draw(st.integers(0, 2)) > 0:
+    pick = draw(st.integers(0, 3))
+    if pick in (1, 2):
         plan = ["solve", draw(st.sampled_from(["param", "rho", "thickness", "translate", "rotate", "set_coord"])), "solve"] + plan[3:]
+    elif pick == 3:  # dynamic steps saved, an earlier one restored, the run continued from it
+        plan = ["solve", "save", "solve", "save", "set_iter", "solve"] + plan[6:]
     for forced in plan:
         name = forced or draw(st.sampled_from(names))
         op = dict(op=name)
@@ -437,6 +441,8 @@ def hyper_histories(draw):
             op.update(seed=draw(st.integers(0, 99)))
         elif name == "replace_mesh":
             op.update(recipe=_recipe(draw))
+        elif name == "set_iter":
+            op.update(i=draw(st.integers(0, 5)))
         ops.append(op)
     return dict(kind="hyperelastic", recipe=_recipe(draw), ops=ops, bc0=draw(st.integers(0, 99)), K=draw(st.integers(4, 20)) / 2.0,
                 dt=draw(st.integers(1, 5)) / 10.0)
@@ -469,6 +475,11 @@ def run_hyper_history(case, rec):
     built = False
     inval = False
     prev = "init"
+    saved = []  # (slot, u, v, a) at Save_Iter
+
+    def state():
+        pt_ = simu.problemType
+        return [np.array(g(pt_), float).copy() for g in (simu._Get_u_n, simu._Get_v_n, simu._Get_a_n)]
 
     def fresh():
         m = gm.rebuild(slot.base, slot.coord)
@@ -518,6 +529,24 @@ def run_hyper_history(case, rec):
         elif name == "bc":
             _hyper_bc(simu, simu.mesh, slot.coord, op["seed"])
             st8["bc"] = op["seed"]
+        elif name == "save":
+            simu.Save_Iter()
+            saved.append((slot, *state()))
+        elif name == "set_iter":
+            if not saved:
+                prev = name
+                continue
+            i_ = op["i"] % len(saved)
+            simu.Set_Iter(i_)
+            changed = saved[i_][0] is not slot
+            slot = saved[i_][0]
+            got = state()
+            for nm_, g_, e_ in zip("uva", got, saved[i_][1:]):
+                if g_.shape == e_.shape:
+                    rec.close(g_ - e_, max(float(np.abs(e_).max()), 1e-9), 1e-12, "set_iter_state",
+                              f"after {tag}: Set_Iter({i_}) did not bring back {nm_} of that iteration", **s2)
+            if changed and st8["bc"] is not None:
+                _hyper_bc(simu, simu.mesh, slot.coord, st8["bc"])
         if name in ("translate", "rotate", "set_coord", "thickness") and st8["bc"] is not None:
             _hyper_bc(simu, simu.mesh, slot.coord, st8["bc"])  # conditions re-entered in the final configuration
         if name == "solve":
